@@ -627,8 +627,15 @@ def prove_connect_relies(src_root, ex: Explorer):
     and either way the connection ends CLOSED and unregistered."""
     from contracts import C10
     C10.prove_connect(src_root, ex)
+    # "leaves nothing behind": every failure path of the strategies ends in disconnect() of the connection that was being set up (a failed
+    # PeerInit / PeerPierceFirewall send closes it, a cancelled request closes what it had opened).  That the connection then ends CLOSED
+    # and unregistered - for every start state and every outcome of wait_closed(), including a cancellation that arrives INSIDE
+    # disconnect() - is the C10 contract of disconnect, discharged here as well
+    C10.prove_disconnect(src_root, ex)
     for ob in ex.obligations:
-        if ob.name.startswith('C10.'):
+        if ob.name.startswith('C10.disconnect.'):
+            ob.name = 'C11.disconnect-contract.' + ob.name[len('C10.disconnect.'):]
+        elif ob.name.startswith('C10.'):
             ob.name = 'C11.connect-contract.' + ob.name[4:]
 
 
